@@ -27,7 +27,10 @@ Part == /\ Is("Part") /\ l' = l + 1
         /\ Ev.maxtnumOK /\ Ev.exclusiveOK /\ Ev.batchOK
 \* same call with another number of threads / batch size / caching: bit-identical on the lattice, 1e-9 relative otherwise
 Invar == /\ Is("Invar") /\ l' = l + 1 /\ (Ev.lattice => Ev.exactSame) /\ Ev.closeRel
-Next == Lin \/ Bias \/ Scale \/ Grads \/ Part \/ Invar
+\* the objectives against their definitions computed naively by the driver over the scaled, missing -> 0 samples (every loss, the four
+\* scaling modes, cached / un-cached inputs and targets, any batch size and thread count): an environment predicate
+Naive == /\ Is("Naive") /\ l' = l + 1 /\ Ev.naiveOK /\ Ev.valueOnlySame
+Next == Lin \/ Bias \/ Scale \/ Grads \/ Part \/ Invar \/ Naive
 Init == l = 1
 Spec == Init /\ [][Next]_l
 Accepted == LET d == TLCGet("stats").diameter IN
